@@ -130,6 +130,7 @@ type lcListenerState struct {
 	regOK      bool
 	regDone    int64 // step at which registration returned
 	unsubDone  int64 // step at which unsubscribe returned (0: not)
+	unsubOpen  bool  // the connection's closed flag was still unset when unsubscribe had returned
 	invoked    int
 	invokedAt  int64
 	flagAtCall bool
@@ -217,13 +218,15 @@ func (lifecycleScn) Run(t *testing.T, seed uint64, plan any, o RunOpts) *Report 
 			}
 			continue
 		}
-		unsubBefore := l.unsubDone != 0 && (r.closeBegan == 0 || l.unsubDone < r.closeBegan)
+		// "before the close": before the harness initiated it, or (what a user can see) the closed flag was
+		// still unset when the unsubscribe call had returned; listeners run only after the flag is set
+		unsubBefore := l.unsubDone != 0 && (r.closeBegan == 0 || l.unsubDone < r.closeBegan || l.unsubOpen)
 		unsubAfter := l.unsubDone != 0 && !unsubBefore
 		switch {
 		case unsubBefore:
 			rep.count("probe:unsubscribed_before_close", 1)
 			if l.invoked > 0 {
-				rep.violate("C20-unsubscribed-but-invoked", "listener %d (%s) was unsubscribed (returned at step %d) before the close began (step %d) and was still invoked", i, pl.Side, l.unsubDone, r.closeBegan)
+				rep.violate("C20-unsubscribed-but-invoked", "listener %d (%s) was unsubscribed (the call returned at step %d; the close was initiated at step %d; closed flag still unset when it returned: %v) and was still invoked", i, pl.Side, l.unsubDone, r.closeBegan, l.unsubOpen)
 			}
 		case unsubAfter:
 			rep.count("probe:unsubscribe_overlaps_close", 1) // not judged
@@ -412,6 +415,7 @@ func (r *lcRun) listenerTask(i int, cli mpx.Conn) {
 	if ok && pl.Unsub {
 		hSleep(time.Duration(pl.UnsubUs) * time.Microsecond)
 		unsub()
+		l.unsubOpen = !flag.IsSet()
 		l.unsubDone = max(simrt.Step(), 1)
 		simrt.Logf("listener %d unsubscribed", i)
 	}
